@@ -215,6 +215,63 @@ def run(run: common.Run):
                         proc_used=res.proc_crs), 4)
     run.compare_lines(pcases, plines, pimpl)
     profiles(run)
+    cli_several_sources(run)
+
+
+def cli_several_sources(run):
+    """
+    One `homonim fuse` call with several sources on different sides of the reference resolution (a finer and a coarser source,
+    either order, processing grid left at auto / forced): each source's parameter image sits on the grid that is right *for that
+    source* - the coarser of its own pair for auto - on the geometry of that image, and the FUSE_PROC_CRS tags and the file names
+    say so.
+    """
+    import warnings
+    from click.testing import CliRunner
+    from homonim import cli
+    tmp = run.tmpdir()
+    u = 8
+    ref = rasters.Grid(u * 5000, u * 9000, 4 * u, 4 * u, 16, 16)
+    fine = rasters.Grid(ref.x0 + 8 * u, ref.ytop - 8 * u, 2 * u, 2 * u, 20, 20)
+    coarse = rasters.Grid(ref.x0 + 8 * u, ref.ytop - 8 * u, 8 * u, 8 * u, 5, 5)
+    rng = run.rng('cli-several')
+    mk = lambda g: np.array([[[rng.randint(20, 200) for _ in range(g.w)] for _ in range(g.h)]], float)
+    for k, (order, pc) in enumerate(((('fine', 'coarse'), None), (('coarse', 'fine'), None), (('fine', 'coarse'), 'ref'),
+                                     (('coarse', 'fine'), 'src'))):
+        d = tmp / f'c18_cli{k}'
+        d.mkdir()
+        rasters.write_tif(d / 'ref.tif', ref, mk(ref), dtype='float32', nodata=float('nan'))
+        grids = dict(fine=fine, coarse=coarse)
+        for nm, g in grids.items():
+            rasters.write_tif(d / f'{nm}.tif', g, mk(g), dtype='float32', nodata=float('nan'))
+        args = ['fuse'] + [str(d / f'{nm}.tif') for nm in order] + [str(d / 'ref.tif'), '-m', 'gain', '-k', '1', '1', '-pi', '-nbo', '-t', '1'] + \
+            (['-pc', pc] if pc else [])
+        with warnings.catch_warnings():
+            warnings.simplefilter('ignore')
+            res = CliRunner().invoke(cli.cli, args)
+        case = dict(i=6_000_000 + k, op='cli, several sources', order=order, proc_crs=pc or 'auto')
+        run.evaluations += 1
+        run.hist['cli calls with a finer and a coarser source'] += 1
+        run.nontrivial.add(('cli-several', k))
+        if res.exit_code != 0:
+            run.fail(case, f'exit code {res.exit_code}: {str(res.exception)[:100]}', signature=dict(kind='raises'))
+            continue
+        for nm, g in grids.items():
+            want = pc or ('ref' if g.px <= ref.px else 'src')
+            pg = ref if want == 'ref' else g
+            pfiles = sorted(d.glob(f'{nm}_FUSE_*_PARAM.tif'))
+            if len(pfiles) != 1:
+                run.fail(case, f'{len(pfiles)} parameter images for source {nm}', signature=dict(kind='cli-several'))
+                break
+            with rio.open(pfiles[0]) as ds:
+                tag = ds.tags().get('FUSE_PROC_CRS')
+                res_px = (abs(ds.transform.a), abs(ds.transform.e))
+            exp_px = (pg.px * float(pg.unit), pg.py * float(pg.unit))
+            in_name = f'_c{want.upper()}_' in pfiles[0].name
+            if res_px != exp_px or tag != want or not in_name:
+                run.fail(case, f'source {nm} ({g.px * float(g.unit)} m, reference {ref.px * float(ref.unit)} m, --proc-crs {pc or "auto"}): '
+                         f'parameter image has {res_px[0]} m pixels, tag FUSE_PROC_CRS={tag}, file {pfiles[0].name}; expected the '
+                         f'{want} grid ({exp_px[0]} m)', signature=dict(kind='cli-several'))
+                break
 
 
 def profiles(run):
